@@ -223,6 +223,12 @@ size_t varintDictEncodeWithDict(uint8_t *buffer, const varintDict *dict,
     return (size_t)(ptr - buffer);
 }
 
+/* Read a tagged varint without looking at or past 'end'.
+ * Returns 0 if the varint is cut short by the end of the buffer. */
+#define varintDictGetBounded_(ptr, end, result)                                \
+    varintTaggedGet((ptr),                                                     \
+                    (end) - (ptr) > 9 ? 9 : (int32_t)((end) - (ptr)), (result))
+
 uint64_t *varintDictDecode(const uint8_t *buffer, size_t bufferLen,
                            size_t *outCount) {
     if (!buffer || bufferLen == 0 || !outCount) {
@@ -234,7 +240,7 @@ uint64_t *varintDictDecode(const uint8_t *buffer, size_t bufferLen,
 
     /* Read dictionary size */
     uint64_t dictSize64;
-    varintWidth w = varintTaggedGet64(ptr, &dictSize64);
+    varintWidth w = varintDictGetBounded_(ptr, end, &dictSize64);
     if (w == 0 || ptr + w > end) {
         return NULL;
     }
@@ -259,7 +265,7 @@ uint64_t *varintDictDecode(const uint8_t *buffer, size_t bufferLen,
     }
 
     for (uint32_t i = 0; i < dictSize; i++) {
-        w = varintTaggedGet64(ptr, &dictValues[i]);
+        w = varintDictGetBounded_(ptr, end, &dictValues[i]);
         if (w == 0 || ptr + w > end) {
             free(dictValues);
             return NULL;
@@ -269,7 +275,7 @@ uint64_t *varintDictDecode(const uint8_t *buffer, size_t bufferLen,
 
     /* Read count */
     uint64_t count64;
-    w = varintTaggedGet64(ptr, &count64);
+    w = varintDictGetBounded_(ptr, end, &count64);
     if (w == 0 || ptr + w > end) {
         free(dictValues);
         return NULL;
@@ -286,13 +292,14 @@ uint64_t *varintDictDecode(const uint8_t *buffer, size_t bufferLen,
         varintExternalUnsignedEncoding(maxIndex, indexWidth);
     }
 
-    /* Check if we have enough buffer for indices */
-    if (ptr + (count * indexWidth) > end) {
+    /* Check if we have enough buffer for indices.  'count' comes from the
+     * input, so compare by division: count * indexWidth could wrap. */
+    if (count > (size_t)(end - ptr) / indexWidth) {
         free(dictValues);
         return NULL;
     }
 
-    /* Allocate output array */
+    /* Allocate output array (count <= bufferLen here, no overflow) */
     uint64_t *output = (uint64_t *)malloc(count * sizeof(uint64_t));
     if (!output) {
         free(dictValues);
@@ -328,7 +335,7 @@ size_t varintDictDecodeInto(const uint8_t *buffer, size_t bufferLen,
 
     /* Read dictionary size */
     uint64_t dictSize64;
-    varintWidth w = varintTaggedGet64(ptr, &dictSize64);
+    varintWidth w = varintDictGetBounded_(ptr, end, &dictSize64);
     if (w == 0 || ptr + w > end) {
         return 0;
     }
@@ -353,7 +360,7 @@ size_t varintDictDecodeInto(const uint8_t *buffer, size_t bufferLen,
     }
 
     for (uint32_t i = 0; i < dictSize; i++) {
-        w = varintTaggedGet64(ptr, &dictValues[i]);
+        w = varintDictGetBounded_(ptr, end, &dictValues[i]);
         if (w == 0 || ptr + w > end) {
             free(dictValues);
             return 0;
@@ -363,7 +370,7 @@ size_t varintDictDecodeInto(const uint8_t *buffer, size_t bufferLen,
 
     /* Read count */
     uint64_t count64;
-    w = varintTaggedGet64(ptr, &count64);
+    w = varintDictGetBounded_(ptr, end, &count64);
     if (w == 0 || ptr + w > end) {
         free(dictValues);
         return 0;
